@@ -79,6 +79,23 @@ Fixpoint cm_upd (m : cmap) (a : addr) (f : cstats -> cstats) : cmap :=
   | (b, c) :: r => if a =? b then (b, f c) :: r else (b, c) :: cm_upd r a f
   end.
 
+(* the entry of a client as a place: what `entry(a).or_insert_with_key(new)` reads (a fresh record when the
+   address is not tracked) and what writing it back does *)
+Definition cm_get0 (m : cmap) (a : addr) : cstats :=
+  match cm_get m a with Some c => c | None => cs_zero end.
+Definition cm_put (m : cmap) (a : addr) (c : cstats) : cmap := cm_upd m a (fun _ => c).
+
+(* field updates of ClientStats *)
+Definition cs_set_rfc_req (c : cstats) (v : N) := mkcs v (c_classic_req c) (c_invalid c) (c_health c) (c_rfc_resp c) (c_classic_resp c) (c_bytes c) (c_failed c) (c_retried c).
+Definition cs_set_classic_req (c : cstats) (v : N) := mkcs (c_rfc_req c) v (c_invalid c) (c_health c) (c_rfc_resp c) (c_classic_resp c) (c_bytes c) (c_failed c) (c_retried c).
+Definition cs_set_invalid (c : cstats) (v : N) := mkcs (c_rfc_req c) (c_classic_req c) v (c_health c) (c_rfc_resp c) (c_classic_resp c) (c_bytes c) (c_failed c) (c_retried c).
+Definition cs_set_health (c : cstats) (v : N) := mkcs (c_rfc_req c) (c_classic_req c) (c_invalid c) v (c_rfc_resp c) (c_classic_resp c) (c_bytes c) (c_failed c) (c_retried c).
+Definition cs_set_rfc_resp (c : cstats) (v : N) := mkcs (c_rfc_req c) (c_classic_req c) (c_invalid c) (c_health c) v (c_classic_resp c) (c_bytes c) (c_failed c) (c_retried c).
+Definition cs_set_classic_resp (c : cstats) (v : N) := mkcs (c_rfc_req c) (c_classic_req c) (c_invalid c) (c_health c) (c_rfc_resp c) v (c_bytes c) (c_failed c) (c_retried c).
+Definition cs_set_bytes (c : cstats) (v : N) := mkcs (c_rfc_req c) (c_classic_req c) (c_invalid c) (c_health c) (c_rfc_resp c) (c_classic_resp c) v (c_failed c) (c_retried c).
+Definition cs_set_failed (c : cstats) (v : N) := mkcs (c_rfc_req c) (c_classic_req c) (c_invalid c) (c_health c) (c_rfc_resp c) (c_classic_resp c) (c_bytes c) v (c_retried c).
+Definition cs_set_retried (c : cstats) (v : N) := mkcs (c_rfc_req c) (c_classic_req c) (c_invalid c) (c_health c) (c_rfc_resp c) (c_classic_resp c) (c_bytes c) (c_failed c) v.
+
 (* PerClientStats *)
 Record pcstate := mkpc { pc_clients : cmap; pc_overflows : N; pc_max : nat }.
 
@@ -131,6 +148,16 @@ Definition sq_force_push (q : squeue) (x : cmap) : squeue * option cmap :=
        | [] => (mksq (sq_cap q) [x], None)                      (* capacity 0 cannot be constructed *)
        | old :: r => (mksq (sq_cap q) (r ++ [x]), Some old)     (* the evicted snapshot *)
        end.
+
+(* Server::send_client_stats (the statistics tick of a worker): the recorder's per-client records are
+   handed to the shared queue and the recorder is cleared — only when there is at least one record
+   (the aggregated recorder never has any: its totals are cumulative). Returns the recorder, the queue
+   and the snapshot the push evicted, if any. *)
+Definition send_client_stats (rec : cmap) (q : squeue) : cmap * squeue * option cmap :=
+  match rec with
+  | [] => (rec, q, None)
+  | _ => let '(q', ev) := sq_force_push q rec in ([], q', ev)
+  end.
 
 Inductive qop := QPush (snap : cmap) | QDrain.
 
